@@ -190,32 +190,32 @@ Proof.
 Qed.
 
 Lemma write_small_control cfg st o body :
-  closed st = false -> cclosed st = false -> len body <= 125 -> 125 <= frame_limit cfg ->
+  closed st = false -> cclosed st = false -> len body <= 125 ->
   exists k o', write_message cfg st o 8 body = (o', [EvWrite (encode_frame (mkf true false 8 (is_client cfg) k body))], None).
 Proof.
-  intros Hcl Hcc Hl Hf. unfold write_message. rewrite Hcl. cbn [is_control N.eqb Pos.eqb orb andb].
+  intros Hcl Hcc Hl. unfold write_message. rewrite Hcl. cbn [is_control N.eqb Pos.eqb orb andb].
   replace (125 <? len body) with false by (symmetry; apply N.ltb_ge; exact Hl).
   rewrite andb_false_r.
-  rewrite chunks_small by lia. cbn [write_frames]. rewrite Hcc.
+  cbn [write_frames]. rewrite Hcc.
   destruct (if is_client cfg then pop_key o else ([], o)) as [k o1]. eauto.
 Qed.
 
 Definition close_1009 (body : bytes) : Prop := exists r, body = be 2 1009 ++ r.
 
 Lemma step_too_large cfg st o st' o' evs e :
-  closed st = false -> cclosed st = false -> 125 <= frame_limit cfg ->
+  closed st = false -> cclosed st = false ->
   step cfg st o = SStop st' o' evs (Some e) -> e = ETooLarge \/ e = ECtlBig ->
   exists k body, close_1009 body /\ evs = [EvWrite (encode_frame (mkf true false 8 (is_client cfg) k body))].
 Proof.
-  intros Hcl Hcc Hf H He.
+  intros Hcl Hcc H He.
   assert (G : forall s oo, closed s = false -> cclosed s = false ->
               stop_err cfg s oo e = SStop st' o' evs (Some e) ->
               exists k body, close_1009 body /\ evs = [EvWrite (encode_frame (mkf true false 8 (is_client cfg) k body))]).
   { intros s oo Hs1 Hs2 HS. unfold stop_err, finish_err in HS.
     destruct He as [-> | ->].
-    - destruct (write_small_control cfg s oo (be 2 1009 ++ str_too_large) Hs1 Hs2 ltac:(vm_compute; discriminate) Hf) as (k & o2 & W).
+    - destruct (write_small_control cfg s oo (be 2 1009 ++ str_too_large) Hs1 Hs2 ltac:(vm_compute; discriminate)) as (k & o2 & W).
       rewrite W in HS. injection HS as <- <- <-. exists k, (be 2 1009 ++ str_too_large). split; [eexists; reflexivity|reflexivity].
-    - destruct (write_small_control cfg s oo (be 2 1009 ++ str_ctl_big) Hs1 Hs2 ltac:(vm_compute; discriminate) Hf) as (k & o2 & W).
+    - destruct (write_small_control cfg s oo (be 2 1009 ++ str_ctl_big) Hs1 Hs2 ltac:(vm_compute; discriminate)) as (k & o2 & W).
       rewrite W in HS. injection HS as <- <- <-. exists k, (be 2 1009 ++ str_ctl_big). split; [eexists; reflexivity|reflexivity]. }
   unfold step in H.
   destruct (next_frame cfg st) as [|e0|total h p]; [discriminate| |].
